@@ -148,6 +148,28 @@ def r04b(ctx):
                 ctx.report("R04b", f, c, f"{call_name(c)}({ptxt}) without manifest.{want}({ptxt})",
                            f"part {ptxt} is {verb} the container but the manifest entry is not "
                            f"{'added' if want == 'add_full_path' else 'removed'} on every path: the saved manifest and package disagree")
+    # reverse direction: a manifest entry is only added for a part that is written on every path to that point
+    for f in m.all_funcs:
+        if f.kind == "nested":
+            continue
+        adds = calls(f, lambda c: call_name(c) == "add_full_path" and c.args and "manifest" in ast.unparse(c.func.value).lower())
+        if not adds:
+            continue
+        cfg = cfg_of(f)
+        for a in adds:
+            p = a.args[0]
+            pv = repo.fold(p, f.module, f.cls)
+            if isinstance(pv, str) and pv.endswith("/"):
+                continue  # folder entries have no part
+            ptxt = ast.unparse(p)
+            writers = calls(f, lambda x: call_name(x) == "set_part" and x.args and ast.unparse(x.args[0]) == ptxt)
+            an = node_of(cfg, a)
+            ok = bool(writers) and cfg.path_avoiding(cfg.entry, an, [node_of(cfg, w) for w in writers], follow_exc=False) is None
+            ctx.instance("R04b", f"{f.file}:{f.ident}", f"add_full_path({ptxt}) only after set_part({ptxt}) on every path", ok=ok, nontrivial=True, line=a.lineno)
+            if not ok:
+                ctx.report("R04b", f, a, f"add_full_path({ptxt}) without set_part({ptxt}) on some path",
+                           f"the manifest entry for {ptxt} is added on a path where the part itself is not written into the container: "
+                           f"the manifest can list a file that is absent from the package")
     # _check_manifest_rdf runs before the flush in Document.save
     f = repo.func("Document.save")
     cfg = cfg_of(f)
@@ -243,6 +265,9 @@ SEEDS = [
     Seed("_add_binary_part registers only new content", "fault", _DOC,
          "        self.container.set_part(path, blob.content)\n        manifest.add_full_path(path, blob.mime_type)\n",
          "        self.container.set_part(path, blob.content)\n        if blob.mime_type != 'application/octet-stream':\n            manifest.add_full_path(path, blob.mime_type)\n", "R04b"),
+    Seed("_add_binary_part stores the bytes only for unseen names", "fault", _DOC,
+         "        self.container.set_part(path, blob.content)\n        manifest.add_full_path(path, blob.mime_type)\n",
+         "        if path not in self.container.parts:\n            self.container.set_part(path, blob.content)\n        manifest.add_full_path(path, blob.mime_type)\n", "R04b"),
     Seed("merge_styles_from drops one add_full_path", "fault", _DOC,
          "                self.set_part(url, part_url)  # type: ignore\n                media_type = document_manifest.get_media_type(url)\n                manifest.add_full_path(url, media_type)  # type: ignore",
          "                self.set_part(url, part_url)  # type: ignore", "R04b"),
